@@ -25,6 +25,7 @@ func c10(c *eng.Ctx, r *eng.Report) {
 		"R10.5 fresh memory is zero: Memory.store is assigned only in Resize and only as append(m.store, make([]byte, n)...), NewMemory returns a fresh object and Run takes one per frame. " +
 		"R10.6 every memory-touching standard opcode reads and writes exactly the regions its definition names (offset/length operands as entry stack slots, compared with a reference table from the Yellow Paper and the EIPs). " +
 		"R10.7 the return-data buffer is a private copy (Run copies the operation's result, or every handler of a `returns` row hands back a copy). " +
+		"R10.9 a zero-length memory operand touches nothing whatever its offset: in calcMemSize64WithUint every overflow result (second result true) is produced only after the length was found non-zero — KECCAK256(2^256-1, 0), RETURN(2^255, 0), CALLDATACOPY(2^64, 0, 0) are no-ops, not gas-overflow failures; " +
 		"R10.8 memory is resized to the maximum touched offset before execution: for each standard memory opcode every region its handler touches lies inside a region its memorySize function accounts for (the C11 coverage rule applied to the rows of the reference table; MCOPY needs both source and destination) and the growth is charged; " +
 		"Not decided: the 256-bit arithmetic itself (holiman/uint256), KECCAK, the bytes copied by Memory.Set/Copy, the bit arithmetic of bitvec.set/set8."
 	r.Assume = []string{"holiman/uint256 v1.1.1 methods implement their documented semantics (z.Op(x,y) sets z = x op y)", "Yellow Paper (δ,α) table transcribed in rules/vmrows.go"}
@@ -37,6 +38,7 @@ func c10(c *eng.Ctx, r *eng.Report) {
 	c10MemOperands(c, r, rows)
 	c10ReturnData(c, r, rows)
 	c11MemoryAs(c, r, rows, "R10.8", memRef, 20)
+	c10ZeroLengthFirst(c, r)
 	c10Bitmap(c, r)
 	c10Memory(c, r)
 }
@@ -853,4 +855,40 @@ func c10ReturnData(c *eng.Ctx, r *eng.Report, rows []rowFx) {
 		}
 	}
 	r.Check(n >= 2, rule, "returnData-writer:any", "", fmt.Sprintf("%d writers of returnData", n), "fewer than two stores to EVMInterpreter.returnData found (reset at frame entry and the store after a returning operation expected)")
+}
+
+// c10ZeroLengthFirst: the Yellow Paper's M(s, f, l) is s when l = 0.
+func c10ZeroLengthFirst(c *eng.Ctx, r *eng.Report) {
+	const rule = "R10.9"
+	r.Min(rule, 1)
+	fn := c.Func("vm", "calcMemSize64WithUint")
+	if !r.Anchor(fn != nil, rule, "vm.calcMemSize64WithUint") || !r.Anchor(len(fn.Params) == 2, rule, "vm.calcMemSize64WithUint parameters") {
+		return
+	}
+	length := fn.Params[1]
+	bad := ""
+	n := 0
+	for _, re := range eng.Returns(fn) {
+		ov := re.Incoming(1)
+		if k, ok := ov.(*ssa.Const); ok && k.Value != nil && k.Value.String() == "false" {
+			continue
+		}
+		n++
+		blk := re.Ret.Block()
+		if re.Pred != nil {
+			blk = re.Pred
+		}
+		nonZero := false
+		for _, cd := range eng.EdgeConds(blk) {
+			if m, isM := cd.Cmp(); isM && m.X == ssa.Value(length) {
+				if k, isK := eng.ConstInt(m.Y); isK && k == 0 && (m.Op == token.NEQ || m.Op == token.GTR) {
+					nonZero = true
+				}
+			}
+		}
+		if !nonZero {
+			bad = c.Pos(re.Ret.Pos())
+		}
+	}
+	r.Check(bad == "" && n >= 1, rule, "memsize:zero-length-first", c.Pos(fn.Pos()), "every possibly-overflowing result is computed only for a non-zero length", "calcMemSize64WithUint can report overflow at "+bad+" before the length was found non-zero: a memory operand of length 0 with an offset of 2^64 or more — KECCAK256(2^256-1, 0), RETURN(2^255, 0) — now aborts the frame with ErrGasUintOverflow instead of touching nothing")
 }
